@@ -94,10 +94,28 @@ _WORD = re.compile(r"^[A-Za-z_][A-Za-z0-9_$]*$")
 _WORDS = re.compile(r"^[A-Za-z_]+(\s+[A-Za-z_]+)+$")
 
 
-def _tokenize(sql: str):
+def _tokenize(sql: str, base: int = 0):
+    """[(token type name, start, end)] with offsets into the whole statement.
+
+    For some leading keywords (CALL, EXECUTE, EXPLAIN, PUT, REMOVE, ...) sqlglot's tokenizer hands over the rest of the
+    statement as ONE pseudo string token with unreliable offsets; that rest is tokenised again here, so that the
+    keywords and names inside it are tokens of their own."""
     from sqlglot.dialects.snowflake import Snowflake
 
-    return [(t.token_type.name, t.start, t.end + 1) for t in Snowflake.Tokenizer().tokenize(sql)]
+    out = []
+    pos = 0
+    for t in Snowflake.Tokenizer().tokenize(sql):
+        typ, a, b = t.token_type.name, t.start, t.end + 1
+        if typ == "STRING" and t.text.strip() and t.text.strip() == sql[pos:].strip():
+            # not a constant: the token's text is the whole rest of the statement (a constant's text lacks its quotes)
+            rest = sql[pos:]
+            lead = len(rest) - len(rest.lstrip())
+            if lead < len(rest):
+                out += _tokenize(rest[lead:], base + pos + lead)
+            return out
+        out.append((typ, base + a, base + b))
+        pos = b
+    return out
 
 
 class Tok:
